@@ -32,6 +32,8 @@ func init() {
 			ruleEmptyKey(c, "C03.EMPTYKEY")
 			rulePairCapture(c, "C03.PAIR")
 			ruleIndexErrors(c, "C03.ERR")
+			// a refusal by a parent-level constraint reaches the caller: one holder for the whole chain
+			ruleErrHolderShared(c, "C03.HOLDER")
 		},
 	})
 	register(&Property{
@@ -53,6 +55,10 @@ func init() {
 			ruleNoRemoveAfterAdd(c, "C04.PHASES", []string{"fkIndex"})
 			ruleFkDelete(c, "C04.DELETE")
 			ruleRawIdFilter(c, "C04.RAWID")
+			// the cascade re-positions its id cursor with Seek(Current()) after every delete: Seek must really
+			// re-seek the underlying bolt cursor
+			ruleSeekAbsolute(c, "C04.RESEEK")
+			ruleErrHolderShared(c, "C04.HOLDER")
 		},
 		Controls: []controlExpect{{"C04.INJECT", "zzControlBad_C04_INJECT", true}},
 	})
@@ -68,6 +74,7 @@ func init() {
 		Rules: func(c *Ctx) {
 			ruleLinkPair(c, "C05.PAIR")
 			ruleTaggedOnce(c, "C05.KEYTAG")
+			ruleNoStats(c, "C05.NOSTATS")
 			ruleLinkMissing(c, "C05.MISSING")
 			ruleRcCheck(c, "C05.RCCHECK")
 			ruleLinkCleanup(c, "C05.CLEANUP")
@@ -126,6 +133,11 @@ func init() {
 			// what a delete removes are the entries of the CURRENT values: every earlier update must have told
 			// every constraint (parent contexts included) about the change
 			ruleProtocol(c, "C06.PROTOCOL")
+			ruleNoStats(c, "C06.NOSTATS")
+			// every child store stays registered: deletes only learn about child stores through the strategy list
+			ruleChildStrategiesAppend(c, "C06.CHILDREG")
+			// a veto raised while a child store's delete constraints run comes back together with a change flow
+			ruleErrorLookedAtOnEveryPath(c, "C06.LOOKEDAT", c.prodFuncs("boltz"))
 			ruleNoMutateWhileIterating(c, "C06.ITERATE", c.prodFuncs("boltz"))
 			ruleChildPaths(c, "C06.PATHS")
 		},
@@ -220,6 +232,39 @@ func ruleProtocol(c *Ctx, rule string) {
 				elemCall = call
 			}
 		}
+		var elemRecv, elemCtxArg ssa.Value
+		if elemCall != nil {
+			elemRecv = elemCall.Common().Value
+			if len(elemCall.Common().Args) == 1 {
+				elemCtxArg = elemCall.Common().Args[0]
+			}
+		} else if h, idx, via := delegatesConstraintStep(fn, f); h != nil {
+			// delegated form: the three entry points share one walker that is handed the step to apply
+			// (ctx.visit(Constraint.ProcessBeforeUpdate)); the walker is what is decided, the entry point must
+			// reach it on every path with itself as the context
+			ri := reachWithout(fn, func(in ssa.Instruction) bool { return in == ssa.Instruction(via) })
+			through := true
+			for _, r := range returnsOf(fn) {
+				if ri.Reaches(r) {
+					through = false
+				}
+			}
+			if through && len(via.Common().Args) > 0 && via.Common().Args[0] == ssa.Value(fn.Params[0]) {
+				c.Analysed(FnName(h))
+				for _, call := range callsIn(h) {
+					cc := call.Common()
+					if !cc.IsInvoke() && cc.Value == ssa.Value(h.Params[idx]) && len(cc.Args) == 2 && derivesFromField(cc.Args[0], constraints, 0) {
+						elemCall, elemRecv, elemCtxArg = call, cc.Args[0], cc.Args[1]
+					}
+					if cc.StaticCallee() == h && len(cc.Args) > idx && cc.Args[idx] == ssa.Value(h.Params[idx]) {
+						if ff, _ := loadedField(cc.Args[0]); sameVar(ff, parentFld) {
+							parentCall = call
+						}
+					}
+				}
+				fn = h
+			}
+		}
 		icT := p.Named("boltz", "IndexingContext")
 		isCtxPtr := func(t types.Type) bool {
 			pt, isP := t.(*types.Pointer)
@@ -274,7 +319,7 @@ func ruleProtocol(c *Ctx, rule string) {
 		okText := "parent context first, then every constraint of this store in a full loop"
 		var owner ssa.Value
 		if ok {
-			owner = ownerOf(elemCall.Common().Value, 0)
+			owner = ownerOf(elemRecv, 0)
 			loops := loopsOf(fn)
 			l := innermostLoop(loops, elemCall.Block())
 			if l == nil {
@@ -315,7 +360,7 @@ func ruleProtocol(c *Ctx, rule string) {
 				}
 			}
 			// the element call passes the context that owns the constraints
-			if len(elemCall.Common().Args) != 1 || owner == nil || elemCall.Common().Args[0] != owner {
+			if elemCtxArg == nil || owner == nil || elemCtxArg != owner {
 				ok, why = false, "constraints are not given the indexing context they belong to"
 			}
 		}
@@ -566,7 +611,8 @@ func valueReaches(v, src ssa.Value, depth int) bool {
 func ruleNoRemoveAfterAdd(c *Ctx, rule string, typeNames []string) {
 	p := c.P
 	adds := map[string]bool{"SetListEntry": true, "PutValue": true, "Put": true}
-	rems := map[string]bool{"DeleteListEntry": true, "DeleteValue": true, "Delete": true, "DeleteBucket": true, "deleteIndexKey": true}
+	rems := map[string]bool{"DeleteListEntry": true, "DeleteValue": true, "Delete": true, "DeleteBucket": true}
+	isPrune := keyPruneHelper(c)
 	for _, tn := range typeNames {
 		fn := p.SSAFunc(p.Method("boltz", tn, "ProcessAfterUpdate"))
 		name := FnName(fn)
@@ -580,7 +626,7 @@ func ruleNoRemoveAfterAdd(c *Ctx, rule string, typeNames []string) {
 			if adds[cal.Name()] {
 				addS = append(addS, call)
 			}
-			if rems[cal.Name()] {
+			if rems[cal.Name()] || isPrune(call) {
 				remS = append(remS, call)
 			}
 		}
@@ -670,29 +716,79 @@ func ruleUniq(c *Ctx, rule string) {
 
 func ruleEmptyKey(c *Ctx, rule string) {
 	p := c.P
-	delKey := p.Method("boltz", "setIndex", "deleteIndexKey")
+	delBucket := p.ExtMethod(bboltPath, "Bucket", "DeleteBucket")
 	delEntry := tbMethod(c, "DeleteListEntry")
 	first := p.ExtMethod(bboltPath, "Cursor", "First")
+	isPrune := keyPruneHelper(c)
+	emptyProbed := func(fi *FactInfo, b *ssa.BasicBlock) bool {
+		// under the fact: key returned by Cursor().First() is nil
+		return fi.HoldsWhere(b, func(f Fact) bool {
+			if f.Kind != "nonnil" || f.Pol {
+				return false
+			}
+			ex, isEx := f.V.(*ssa.Extract)
+			return isEx && ex.Index == 0 && isCallTo(ex.Tuple.(ssa.Instruction), first)
+		})
+	}
+	// the pruning of a key, wherever it is written (in place, or in a helper that may itself do the probe):
+	// every bolt DeleteBucket it can reach is guarded by the probe, at the call or inside the helper
+	var prunesGuarded func(fn *ssa.Function, depth int) (n int, ok bool)
+	prunesGuarded = func(fn *ssa.Function, depth int) (int, bool) {
+		fi := ComputeFacts(fn)
+		n, ok := 0, true
+		for _, call := range callsIn(fn) {
+			switch {
+			case isCallTo(call, delBucket):
+				n++
+				if !emptyProbed(fi, call.Block()) {
+					ok = false
+				}
+			case isPrune(call):
+				n++
+				if emptyProbed(fi, call.Block()) {
+					continue
+				}
+				sc := call.Common().StaticCallee()
+				if sc == nil || depth > 2 {
+					ok = false
+					continue
+				}
+				if k, good := prunesGuarded(sc, depth+1); !good || k == 0 {
+					ok = false
+				}
+			}
+		}
+		return n, ok
+	}
+	// probes: the First call itself, or a helper that cannot return without having made it
+	isProbe := func(in ssa.Instruction) bool {
+		if isCallTo(in, first) {
+			return true
+		}
+		ci, isCI := in.(ssa.CallInstruction)
+		if !isCI || !isPrune(ci) {
+			return false
+		}
+		sc := ci.Common().StaticCallee()
+		if sc == nil {
+			return false
+		}
+		ri := reachWithout(sc, func(x ssa.Instruction) bool { return isCallTo(x, first) })
+		for _, r := range returnsOf(sc) {
+			if ri.Reaches(r) {
+				return false
+			}
+		}
+		return true
+	}
 	for _, m := range []string{"ProcessAfterUpdate", "ProcessBeforeDelete"} {
 		fn := p.SSAFunc(p.Method("boltz", "setIndex", m))
 		name := FnName(fn)
 		c.Analysed(name)
-		fi := ComputeFacts(fn)
-		nDel, ok, why := 0, true, ""
-		for _, call := range callsIn(fn) {
-			if isCallTo(call, delKey) {
-				nDel++
-				// under the fact: key returned by Cursor().First() is nil
-				if !fi.HoldsWhere(call.Block(), func(f Fact) bool {
-					if f.Kind != "nonnil" || f.Pol {
-						return false
-					}
-					ex, isEx := f.V.(*ssa.Extract)
-					return isEx && ex.Index == 0 && isCallTo(ex.Tuple.(ssa.Instruction), first)
-				}) {
-					ok, why = false, "an index key is deleted without an emptiness probe (Cursor().First() == nil) guarding that very deletion"
-				}
-			}
+		nDel, ok := prunesGuarded(fn, 0)
+		why := ""
+		if !ok {
+			why = "an index key is deleted without an emptiness probe (Cursor().First() == nil) guarding that very deletion"
 		}
 		// every DeleteListEntry is followed by the probe before the next iteration
 		nRemovals := 0
@@ -701,10 +797,10 @@ func ruleEmptyKey(c *Ctx, rule string) {
 				continue
 			}
 			nRemovals++
-			ri := reachWithoutFrom(fn, call, func(in ssa.Instruction) bool { return isCallTo(in, first) })
+			ri := reachWithoutFrom(fn, call, isProbe)
 			sameBlock := false
 			for i := instrIndex(call) + 1; i < len(call.Block().Instrs); i++ {
-				if isCallTo(call.Block().Instrs[i], first) {
+				if isProbe(call.Block().Instrs[i]) {
 					sameBlock = true
 				}
 			}
@@ -715,9 +811,33 @@ func ruleEmptyKey(c *Ctx, rule string) {
 		if nRemovals == 0 {
 			ok, why = false, "no removal of the entity's entries found"
 		}
+		if nDel == 0 && why == "" {
+			why = "the key of an emptied set-index entry is never pruned"
+		}
 		c.Check(ok && nDel > 0, rule, name, p.Pos(fn.Pos()), "each removed entry is followed by an emptiness probe and the key is pruned only under that probe", why)
 	}
 	c.Floor(rule, 2)
+}
+
+// keyPruneHelper: calls of functions of package boltz (not methods of the typed bucket, whose removals have
+// their own rules) that can reach bolt's DeleteBucket — the pruning of an index key, by whatever name.
+func keyPruneHelper(c *Ctx) func(call ssa.CallInstruction) bool {
+	p := c.P
+	delBucket := p.ExtMethod(bboltPath, "Bucket", "DeleteBucket")
+	sum := p.CallGraph().Summarize(func(in ssa.Instruction) bool { return isCallTo(in, delBucket) })
+	tb := p.Named("boltz", "TypedBucket")
+	return func(call ssa.CallInstruction) bool {
+		sc := call.Common().StaticCallee()
+		if sc == nil || sc.Pkg == nil || sc.Pkg.Pkg.Path() != modPath+"/boltz" || !sum.May(sc) {
+			return false
+		}
+		if f := methodOf(sc); f != nil {
+			if r := recvType(f); r != nil && namedOf(r) == tb {
+				return false
+			}
+		}
+		return true
+	}
 }
 
 // ---- PAIR: capture / read / remover per constraint ------------------------------------------------
@@ -791,6 +911,7 @@ func rulePairCapture(c *Ctx, rule string) {
 func ruleIndexErrors(c *Ctx, rule string) {
 	p := c.P
 	h := newHolderInfo(c)
+	isPrune := keyPruneHelper(c)
 	for _, tn := range []string{"uniqueIndex", "setIndex", "fkIndex"} {
 		for _, m := range []string{"ProcessAfterUpdate", "ProcessBeforeDelete"} {
 			fn := p.SSAFunc(p.Method("boltz", tn, m))
@@ -825,7 +946,7 @@ func ruleIndexErrors(c *Ctx, rule string) {
 						bad = describeInstr(call) + " at " + p.Pos(call.Pos())
 					}
 				}
-				if errorResultIndex(cal.Type().(*types.Signature)) >= 0 && cal.Name() == "deleteIndexKey" {
+				if sig := cal.Type().(*types.Signature); sig.Results().Len() == 1 && errorResultIndex(sig) == 0 && isPrune(call) {
 					n++
 					used := false
 					for _, r := range *cv.Referrers() {
@@ -2105,4 +2226,48 @@ func ruleTaggedOnce(c *Ctx, rule string) {
 	}
 	c.CallSites(n)
 	c.Floor(rule, 1)
+}
+
+// delegatesConstraintStep: fn hands a function that does nothing but call the constraint method named like f
+// on its first parameter with its second (a method expression, or a literal that says the same) to a function
+// of its own package.  Returns that function, the index of the step parameter and the call.
+func delegatesConstraintStep(fn *ssa.Function, f *types.Func) (*ssa.Function, int, ssa.CallInstruction) {
+	isStep := func(v ssa.Value) bool {
+		var sf *ssa.Function
+		switch x := v.(type) {
+		case *ssa.Function:
+			sf = x
+		case *ssa.MakeClosure:
+			if len(x.Bindings) == 0 {
+				sf, _ = x.Fn.(*ssa.Function)
+			}
+		}
+		if sf == nil || sf.Blocks == nil || len(sf.Params) != 2 {
+			return false
+		}
+		calls := callsIn(sf)
+		if len(calls) != 1 {
+			return false
+		}
+		cc := calls[0].Common()
+		if _, isCall := calls[0].(*ssa.Call); !isCall {
+			return false
+		}
+		return cc.IsInvoke() && cc.Method.Name() == f.Name() && cc.Value == ssa.Value(sf.Params[0]) && len(cc.Args) == 1 && cc.Args[0] == ssa.Value(sf.Params[1])
+	}
+	for _, call := range callsIn(fn) {
+		sc := call.Common().StaticCallee()
+		if sc == nil || sc.Blocks == nil || sc.Pkg != fn.Pkg || sc == fn {
+			continue
+		}
+		if _, isCall := call.(*ssa.Call); !isCall {
+			continue
+		}
+		for i, a := range call.Common().Args {
+			if isStep(a) && i < len(sc.Params) {
+				return sc, i, call
+			}
+		}
+	}
+	return nil, 0, nil
 }
